@@ -16,10 +16,10 @@ import (
 
 // Event is one file-system mutation.
 type Event struct {
-	N     int    `json:"n"`     // sequence number (1-based) over the data events (everything but the series index)
-	X     int    `json:"x"`     // sequence number over all events, index included
-	Op    string `json:"op"`    // create | write | sync | rename | remove | truncate | close
-	Path  string `json:"path"`  // path (relative to Root when below it)
+	N     int    `json:"n"`    // sequence number (1-based) over the data events (everything but the series index)
+	X     int    `json:"x"`    // sequence number over all events, index included
+	Op    string `json:"op"`   // create | write | sync | rename | remove | truncate | close
+	Path  string `json:"path"` // path (relative to Root when below it)
 	To    string `json:"to,omitempty"`
 	Class string `json:"class"` // wal | init | tssp | clog | index | other
 	Size  int    `json:"size,omitempty"`
@@ -27,8 +27,8 @@ type Event struct {
 
 type Recorder struct {
 	fileops.VFS
-	mu     sync.Mutex
-	world  sync.Mutex // held across hook + mutation + hook: mutations are serialised, so a copy of
+	mu    sync.Mutex
+	world sync.Mutex // held across hook + mutation + hook: mutations are serialised, so a copy of
 	// the tree taken inside a hook is an atomic snapshot with respect to every mutation that
 	// goes through fileops (data files, WAL, compaction logs and the series index alike)
 	Root   string
@@ -88,6 +88,13 @@ func (r *Recorder) Stop() []Event {
 	r.Before, r.After = nil, nil
 	r.mu.Unlock()
 	return ev
+}
+
+// LastN returns the number of the last data event recorded so far.
+func (r *Recorder) LastN() int {
+	r.mu.Lock()
+	defer r.mu.Unlock()
+	return r.n
 }
 
 func (r *Recorder) rel(p string) string {
